@@ -27,7 +27,9 @@ PROP = dict(
           'pairs (level 1..8 edges, or max >= 2^32) | matrix (declared shape, '
           'entry type bit/unsigned 1..8 bytes/float/double/half, prior '
           'contents zeros/ones/random, dense / prefix / sparse mapping, up '
-          'to 30 cell writes); non-trivial = '
+          'to 30 cell writes, then optionally the image of a second matrix '
+          '(same rows, 1..8 fewer columns) copied over the used address '
+          'and a second history there); non-trivial = '
           'header with a width >= 3 bytes, or packed pair with max >= 256, or '
           'a cell write followed by a neighbour read in a matrix with >= 2 '
           'rows, or a bit cleared; distinct by hash of (rows, cols) resp. '
@@ -40,7 +42,8 @@ PROP = dict(
                       'mx.u64', 'mx.float', 'mx.double', 'mx.vector',
                       'mx.rows2+', 'mx.colwidth5+', 'mx.sparse.colwidth5+',
                       'cell.sparse.row1+', 'bit.cleared',
-                      'bit.toggle', 'cell.lastrow', 'cell.lastcol'],
+                      'bit.toggle', 'cell.lastrow', 'cell.lastcol', 'reloc.on',
+                      'reloc.same-widths'],
     assumptions=COMMON_ASSUME + [
         'cols >= 1 for every header; packed pairs may be (0,0)',
         'header widths must be inside the format (rows 0..8, cols 1..8 bytes) '
